@@ -17,13 +17,15 @@
 //           (the body of train() for >2 classes, also usable with two classes)
 //  LIN   id type bias C eps maxiter seed direct n d y.. x..
 //        -> L id stop iters acc value rows W w(rows*d) B offset(nb)       LinearCSvmTrainer / QpMcLinear* / QpBoxLinear
+//  SOLVE id type C eps maxiter shrinking kernel gamma n d y.. x..
+//        -> MH MS MV MS SV: the real QpSolver::solve on QpMcBoxDecomp / QpMcSimplexDecomp, full positional state before and after
 //  LSTEPS id type C eps nepochs seed n d y.. x..
 //        -> LS lines: the real calcGradient / solveSub / updateWeightVectors of QpMcLinear<type>, one example at a time (own epoch loop)
 //  BLSTEPS id bound reg offset nepochs seed n d y.. x..
 //        -> BL lines: the real QpBoxLinear::solve, one epoch per call (warm start), with the epoch's schedule re-derived from the seed
 //  STEPS id type C eps shrinkperiod nsteps mode seed kernel gamma n d y.. x..     (mode: bit 0 random working sets, bit 1 addDeltaLinear events)
 //        -> RUN/SS|SB/ST/EV/END lines: the real QpMcSimplexDecomp / QpMcBoxDecomp driven step by step; for the state model
-//           C16State.v additionally MH (constants) MI (constructor inputs) MS (full positional state) MO (operation) MK (kernel matrix)
+//           C16State.v additionally MH (constants) MI (constructor inputs) MS (full positional state) MO (operation) MK (kernel matrix) SE (selectWorkingSet: inputs > violation i j) KK (checkKKT)
 #include <cstdio>
 #include <cstdlib>
 #include <cstring>
@@ -392,17 +394,18 @@ static void driveSteps(const std::string& id, Mx& matrix, QpSparseArray<F> const
 	for (; it < nsteps; it++) {
 		std::size_t v = 0, w = 0;
 		double acc = q.selectWorkingSet(v, w);
+		std::printf("SE %s 0 0 > %a %zu %zu\n", id.c_str(), acc, v, w);
 		if (acc < eps) {
 			std::printf("MO %s unshrink\n", id.c_str());
 			q.unshrink();
 			dumpFull(q, id);
 			std::printf("EV %s unshrink\n", id.c_str()); dumpState(q, "ST", id);
-			if (q.checkKKT() < eps) { endw = "accuracy"; break; }
+			{ double kk = q.checkKKT(); std::printf("KK %s > %a\n", id.c_str(), kk); if (kk < eps) { endw = "accuracy"; break; } }
 			std::printf("MO %s shrink %a %d\n", id.c_str(), eps, (int)q.m_useShrinking);
 			q.shrink(eps);
 			dumpFull(q, id); dumpKernelPos(q, id, matrix);
 			std::printf("EV %s shrink\n", id.c_str()); dumpState(q, "ST", id);
-			q.selectWorkingSet(v, w);
+			{ std::size_t v0 = v, w0 = w; double a2 = q.selectWorkingSet(v, w); std::printf("SE %s %zu %zu > %a %zu %zu\n", id.c_str(), v0, w0, a2, v, w); }
 		}
 		if (addlin && (rng() % 5 == 0)) {
 			RealMatrix delta(q.m_numExamples, cp, 0.0);
@@ -413,7 +416,7 @@ static void driveSteps(const std::string& id, Mx& matrix, QpSparseArray<F> const
 			q.addDeltaLinear(delta);
 			dumpFull(q, id);
 			std::printf("EV %s addlin\n", id.c_str()); dumpState(q, "ST", id);
-			q.selectWorkingSet(v, w);
+			{ std::size_t v0 = v, w0 = w; double a2 = q.selectWorkingSet(v, w); std::printf("SE %s %zu %zu > %a %zu %zu\n", id.c_str(), v0, w0, a2, v, w); }
 		}
 		if (randsel && (rng() % 3 == 0) && q.m_activeVar >= 1) {
 			v = rng() % q.m_activeVar; w = rng() % q.m_activeVar;
@@ -462,6 +465,48 @@ static void driveSteps(const std::string& id, Mx& matrix, QpSparseArray<F> const
 	std::printf("SOL %s", id.c_str());
 	for (std::size_t i = 0; i < q.m_numExamples; i++) for (std::size_t pp = 0; pp < cp; pp++) std::printf(" %a", sol(i, pp));
 	std::printf("\nEND %s %s %ld %a %a\n", id.c_str(), endw, it, q.checkKKT(), q.functionValue());
+}
+
+// the real QpSolver::solve on the real problem class, from the constructor state, maxIterations = maxiter
+template<class P, class Mx, class F>
+static void driveSolve(const std::string& id, Mx& matrix, QpSparseArray<F> const& M, ClassificationDataset const& data,
+		RealMatrix const& linear, double C, double eps, long maxiter, bool shrinking) {
+	P q(matrix, M, data.labels(), linear, C);
+	q.setShrinking(shrinking);
+	dumpHeader(q, id, matrix, M, C);
+	dumpFull(q, id);
+	QpStoppingCondition stop; stop.minAccuracy = eps; stop.maxIterations = (unsigned long long)maxiter;
+	QpSolutionProperties prop;
+	QpSolver<P> solver(q);
+	std::printf("MV %s %a %ld %d\n", id.c_str(), eps, maxiter, (int)shrinking);
+	solver.solve(stop, &prop);
+	dumpFull(q, id);
+	std::printf("SV %s %s %llu %a %a\n", id.c_str(), prop.type == QpAccuracyReached ? "accuracy" : "maxiter", prop.iterations, prop.accuracy, q.checkKKT());
+}
+
+static void cmdSolve(const Tok& t) {
+	std::size_t p = 1;
+	std::string id = t.at(p++); std::string tn = t.at(p++); McSvm type = mcType(tn);
+	double C = D(t.at(p++)), eps = D(t.at(p++)); long maxiter = I(t.at(p++)); bool shrinking = I(t.at(p++)) != 0;
+	std::string kn = t.at(p++); double gamma = D(t.at(p++));
+	std::size_t n = (std::size_t)I(t.at(p++)), d = (std::size_t)I(t.at(p++));
+	DataSpec ds; p = readData(t, p, n, d, ds);
+	std::unique_ptr<AbstractKernelFunction<RealVector> > kernel(makeKernel(kn, gamma));
+	ClassificationDataset data = createLabeledDataFromRange(ds.x, ds.y);
+	std::size_t classes = numberOfClasses(data);
+	CSvmTrainer<RealVector, double> trainer(kernel.get(), C, false);
+	QpSparseArray<double> nu, M; bool sumToZero, simplex;
+	setupNuM(trainer, type, classes, nu, M, sumToZero, simplex);
+	RealMatrix linear(n, M.width(), 1.0);
+	if (type == McSvm::ReinforcedSvm) for (std::size_t i = 0; i < n; i++) linear(i, ds.y[i]) = classes - 1.0;
+	typedef KernelMatrix<RealVector, double> KM;
+	typedef PrecomputedMatrix<KM> PM;
+	KM km(*kernel, data.inputs());
+	PM matrix(&km);
+	std::printf("RUN %s %s %zu %zu %zu %d %a\n", id.c_str(), tn.c_str(), n, classes, (std::size_t)M.width(), (int)simplex, C);
+	if (simplex) driveSolve<QpMcSimplexDecomp<PM>, PM, double>(id, matrix, M, data, linear, C, eps, maxiter, shrinking);
+	else driveSolve<QpMcBoxDecomp<PM>, PM, double>(id, matrix, M, data, linear, C, eps, maxiter, shrinking);
+	std::printf("SEND %s\n", id.c_str());
 }
 
 static void cmdSteps(const Tok& t) {
@@ -618,6 +663,7 @@ static void handle(const Tok& t) {
 	else if (c == "RAW") { if (t.at(12) == "f") cmdRaw<float>(t); else cmdRaw<double>(t); }
 	else if (c == "LIN") cmdLin(t);
 	else if (c == "STEPS") cmdSteps(t);
+	else if (c == "SOLVE") cmdSolve(t);
 	else if (c == "LSTEPS") cmdLSteps(t);
 	else if (c == "BLSTEPS") cmdBLSteps(t);
 	else std::printf("UNKNOWN %s\n", c.c_str());
